@@ -263,3 +263,38 @@ def matrix_scope(tier):
     add("u_date_long", un(prim("int", "date"), prim("long")))
     add("u_bool_double", un(prim("boolean"), prim("double")))
     return out
+
+
+def record_scope(tier):
+    """record schemas for C13/C14: 3 (quick) or 4 (thorough) fields drawn from required scalar, null, [null,T], [T,null],
+    nested record, array of records - every field kind in every position at least once."""
+    out = []
+    n = [0]
+
+    def nm(p):
+        n[0] += 1
+        return f"{p}{n[0]}"
+
+    def inner():
+        return rec(nm("In"), [("x", prim("long")), ("y", un(prim("null"), prim("string")))])
+
+    kinds = {
+        "req": lambda: prim("long"),
+        "str": lambda: prim("string"),
+        "null": lambda: prim("null"),
+        "opt": lambda: un(prim("null"), prim("string")),
+        "optrev": lambda: un(prim("long"), prim("null")),
+        "rec": inner,
+        "arr": lambda: arr(inner()),
+        "optrec": lambda: un(prim("null"), inner()),
+        "byt": lambda: prim("bytes"),
+    }
+    combos3 = [("req", "opt", "null"), ("opt", "req", "str"), ("rec", "req", "opt"), ("req", "rec", "optrev"),
+               ("null", "optrec", "req"), ("arr", "opt", "req"), ("optrev", "null", "rec"), ("str", "arr", "opt"),
+               ("byt", "req", "byt"), ("opt", "byt", "rec")]
+    combos4 = [("req", "opt", "rec", "null"), ("rec", "rec", "opt", "req"), ("opt", "optrev", "null", "opt"),
+               ("arr", "req", "optrec", "str")]
+    for cb in combos3 + (combos4 if tier != "quick" else []):
+        fields = [(chr(97 + i), kinds[k]()) for i, k in enumerate(cb)]
+        out.append({"sid": "rec_" + "_".join(cb), "nodes": flatten(rec(nm("ns.Rec"), fields))["nodes"]})
+    return out
